@@ -81,6 +81,11 @@ def gen_cases(tier, seed):
                                   Q(['reincarnate'], ['pause', 'p'], ['play']), [{'at': 1, 'act': ['pause', 'p']}] + Q(['reincarnate'], ['play']),
                                   [{'at': 0, 'act': ['pause', 'p']}] + Q(['reincarnate'], ['play'], ['reincarnate']), Q(['pause', 'p'], ['reincarnate'], ['reincarnate'], ['play'])]):
             yield {'name': name, 'program': prog, 'plan': plans.uniq(plan, 'i%d' % j), 'drain': True, 'probe': False, 'barrage': False, 'listener': True}
+        # the task stepping a paused process is cancelled and the process is played before that cancellation has been delivered; a new
+        # stepping task is started afterwards: the play holds
+        for s0 in range(0, n + 1, 2 if tier == 'quick' else 1):
+            yield {'name': name, 'program': prog, 'drain': True, 'probe': False, 'barrage': False, 'listener': True,
+                   'plan': plans.uniq([{'at': s0, 'act': ['pause', 'p']}, {'at': 'q', 'act': ['abort_task']}, {'at': 'q+', 'act': ['play']}, {'at': 'q', 'act': ['restart_task']}], 'w%d' % s0)}
         # a process class that keeps its status message in a store of its own (the public accessors overridden): K <= 2 plans
         for j, plan in enumerate(list(plans.all_placements(n, ALPHABET, 1)) + [p for p in plans.all_placements(n, ALPHABET, 2) if _relevant(p)][::3]):
             yield {'name': name, 'program': prog, 'plan': plans.uniq(plan, 'o%d' % j), 'drain': True, 'probe': False, 'barrage': False, 'listener': True,
